@@ -59,6 +59,7 @@ def make_stubs(chi_sym, n_outputs, n_err, log):
         def copy(self):
             m = MechStub()
             m._sens = self._sens
+            m._sens_idx = list(getattr(self, '_sens_idx', range(N_MECH)))
             return m
 
         def n_outputs(self):
@@ -78,6 +79,8 @@ def make_stubs(chi_sym, n_outputs, n_err, log):
 
         def enable_sensitivities(self, enabled, parameter_names=None):
             self._sens = bool(enabled)
+            # contract of enable_sensitivities: derivatives w.r.t. the named parameters, in published order
+            self._sens_idx = list(range(N_MECH)) if parameter_names is None else [k for k in range(N_MECH) if 'psi%d' % k in [str(n_) for n_ in parameter_names]]
             log.append(('enable_sensitivities', bool(enabled)))
 
         def set_outputs(self, outputs):
@@ -94,11 +97,12 @@ def make_stubs(chi_sym, n_outputs, n_err, log):
                     out[o, u] = S(sp.Function('Y%d' % o, real=True)(sp.Rational(repr(float(t)))))
             if not self._sens:
                 return out
-            sens = np.empty((len(times), n_outputs, N_MECH), dtype=object)
+            idx = getattr(self, '_sens_idx', list(range(N_MECH)))
+            sens = np.empty((len(times), n_outputs, len(idx)), dtype=object)
             for u, t in enumerate(times):
                 for o in range(n_outputs):
-                    for k in range(N_MECH):
-                        sens[u, o, k] = S(sp.Function('dY%d_%d' % (o, k), real=True)(sp.Rational(repr(float(t)))))
+                    for j_, k in enumerate(idx):
+                        sens[u, o, j_] = S(sp.Function('dY%d_%d' % (o, k), real=True)(sp.Rational(repr(float(t)))))
             return out, sens
 
     class ErrStub(chi_sym.ErrorModel):
@@ -127,11 +131,18 @@ def make_stubs(chi_sym, n_outputs, n_err, log):
             return np.array([S(sp.Symbol('PW%d_%d' % (self.o, j), real=True)) for j in range(len(observations))], dtype=object)
 
         def compute_sensitivities(self, parameters, model_output, model_sensitivities, observations):
+            ms = np.asarray(model_sensitivities, dtype=object)
+            width = ms.shape[1] if ms.ndim == 2 else 0
             log.append(('se', self.o, list(parameters), list(model_output), [float(x) for x in observations],
-                        [[model_sensitivities[j][k] for k in range(N_MECH)] for j in range(len(observations))] if len(model_sensitivities) == len(observations) else None))
-            if len(model_output) != len(observations) or len(model_sensitivities) != len(observations):
+                        [[ms[j][k] for k in range(width)] for j in range(len(observations))] if len(ms) == len(observations) else None))
+            if len(model_output) != len(observations) or len(ms) != len(observations):
                 raise ValueError('The number of model outputs must match the number of observations')
-            g = [S(sp.Symbol('G%d_%d' % (self.o, k), real=True)) for k in range(N_MECH)] + \
+            # C04 contract: entry k of the mechanistic block is sum_j dl/dm_j * S[j, k]; S[j, k] = dY_o(t_j)/dpsi_c carries c in its name
+            cols = []
+            for k in range(width):
+                nm = type(sym.w(ms[0][k])).__name__ if len(ms) else 'dY%d_%d' % (self.o, k)
+                cols.append(int(nm.split('_')[-1]))
+            g = [S(sp.Symbol('G%d_%d' % (self.o, c), real=True)) for c in cols] + \
                 [S(sp.Symbol('H%d_%d' % (self.o, q), real=True)) for q in range(self._n_parameters)]
             return S(sp.Symbol('L%d' % self.o, real=True)), np.array(g, dtype=object)
     return MechStub, ErrStub
